@@ -1,6 +1,8 @@
 (** Extraction of the trie models for the C03 / C15 correspondence runs. *)
 Require Extraction.
 Require Import ExtrOcamlBasic.
-From CB Require Import Trie.Radix Trie.PrefixMap Trie.Locks.
+From CB Require Import Trie.Radix.
+From CB Require Import Trie.PrefixMap.
+From CB Require Import Trie.Locks.
 Extraction "trie_model.ml" m_step m_init s_step s_init m_wf
   pm_insert pm_delete pm_no_prefix pm_iohp pm_dump pm_wf pm_set pm_count.
